@@ -26,13 +26,14 @@ RULE = ("cases = generated valid specifications x {0 violations (accepted stream
         "accepted-but-unsupported shapes of the known findings; distinct = structural signature x set of violated rules; evaluations = "
         "specifications classified (constructed, functions created, solved, simulated)")
 ASSUMPTIONS = ["wrong *types* of n_periods and non-dict containers are not among the listed rules and are not generated"]
-VIOLATIONS = ["n_periods", "no_utility", "no_next", "overlap", "non_grid", "non_callable", "key_not_str", "stoch_on_cont", "stoch_dep_cont", "filter_param", "bad_grid", "bad_disc"]
+VIOLATIONS = ["n_periods", "no_utility", "no_next", "overlap", "non_grid", "non_callable", "key_not_str", "stoch_on_cont", "stoch_dep_cont", "stoch_dep_other",
+              "filter_param", "bad_grid", "bad_disc"]
 BAD_DISC = [[0, 2, 1, 3], [0, 0.5, 2], [1, 0], [0, 2], [0, 1, 1], [0, 3, 1, 2, 4], [0, 1, 3], [1, 2, 3], [0, "a"], [0, None, 2], [0, 5, 7, 3]]
 FORCES = [None, ["filter"], ["stoch"], ["mixed"], ["constraint"], ["cont2"], ["aux"], ["f1"]]
 
 
 def cases(seed, tier):
-    n = 108 if tier == "quick" else 1200
+    n = 195 if tier == "quick" else 1500
     out = []
     for i in range(n):
         c = {"kind": "gen", "seed": seed * 1_000_003 + 12001 + i, "force": FORCES[i % len(FORCES)], "n_params": 1, "budget": 1500}
@@ -43,7 +44,9 @@ def cases(seed, tier):
             # valid stochastic state next to the offending one, are then met)
             j = i // 3
             c["violations"] = [VIOLATIONS[j % len(VIOLATIONS)]]
-            c["force"] = [None, ["stoch"], ["stoch", "filter"], ["cont2", "stoch"]][(j // len(VIOLATIONS)) % 4]
+            c["force"] = [None, ["stoch3"], ["stoch", "filter"], ["cont2", "stoch"], ["stoch3", "aux"]][(j // len(VIOLATIONS)) % 5]
+            if c["violations"][0] == "stoch_dep_other":
+                c["force"] = sorted(set((c["force"] or []) + ["stoch3"]))
             if c["violations"][0] in ("stoch_on_cont", "stoch_dep_cont"):
                 c["force"] = sorted(set((c["force"] or []) + ["stoch", "cs"]))   # "cs" guarantees a continuous state
         else:
@@ -135,6 +138,23 @@ def apply_violations(r, mj, kinds):
             f["stochastic"] = True
             f["args"] = [r.choice(cont)] + [a for a in f["args"] if a in dstates][:1]
             f["body"] = ["num", "0"]
+        elif k == "stoch_dep_other":
+            # a stochastic transition that depends on something that is not a model variable: a free parameter or an auxiliary
+            # function - preferably not the last stochastic state (so that valid ones follow it)
+            st = [f for f in raw["functions"] if f.get("stochastic") and f["name"].startswith("next_")]
+            auxn = [f["name"] for f in raw["functions"] if f["name"].startswith("aux")]
+            if st:
+                f = st[0] if len(st) > 1 and r.random() < 0.7 else r.choice(st)
+            elif dstates:
+                f = next((f for f in raw["functions"] if f["name"] == f"next_{dstates[0]}"), None)
+                if f is None:
+                    continue
+                f["stochastic"] = True
+                f["args"] = [a for a in f["args"] if a in dstates][:1]
+                f["body"] = ["num", "0"]
+            else:
+                continue
+            f["args"] = f["args"] + [r.choice(auxn) if auxn and r.random() < 0.5 else "theta"]
         elif k == "filter_param":
             fl = [f for f in raw["functions"] if f["name"].endswith("_filter")]
             if fl:
